@@ -353,6 +353,22 @@ func main() {
 		})
 	}
 	p("def minChecksumLen : Int := %d\ndef pathSplitHead : Int := %d\ndef pathSplitTail : Int := %d\n", minLen, splitA, splitB)
+	// PathForChecksum looks at every character of the checksum and refuses with InvalidChecksumError inside that loop
+	charsChecked := false
+	if fd := funcDecl(cacheGo, "PathForChecksum"); fd != nil && len(paramNames(fd)) == 1 {
+		ast.Inspect(fd, func(m ast.Node) bool {
+			if rs, ok := m.(*ast.RangeStmt); ok && src(rs.X) == paramNames(fd)[0] {
+				ast.Inspect(rs.Body, func(k ast.Node) bool {
+					if ret, ok := k.(*ast.ReturnStmt); ok && strings.Contains(src(ret), "InvalidChecksumError") {
+						charsChecked = true
+					}
+					return true
+				})
+			}
+			return true
+		})
+	}
+	p("def checksumCharsChecked : Bool := %s\n", leanBool(charsChecked))
 
 	// --- lock: flags of lockProject, unlock shape
 	if fd := funcDecl(rootGo, "lockProject"); fd != nil {
